@@ -42,16 +42,17 @@ class Universe:
             sm = self.sm
             k = i[0]
             nm = name_of(i)
+            num_ = int(i[1:]) if i[1:].isdigit() else 1
             if k == "n":
                 o = sm.Node(name=nm)
             elif k == "l":
                 o = sm.Link(2, 3, 1.0, 180.0, 33.5, 102.0, 1.867, name=nm)
-            elif k == "o":
-                o = sm.Origin(name=nm) if i != "o2" else sm.MainstreamOrigin(name=nm)
-            elif k == "r":
-                o = sm.MeteredOnRamp(2000.0, name=nm) if i != "r2" else sm.SimplifiedMeteredOnRamp(2000.0, name=nm)
+            elif k == "o":   # origins that are NOT ramps: ideal (odd) / mainstream (even)
+                o = sm.Origin(name=nm) if num_ % 2 else sm.MainstreamOrigin(name=nm)
+            elif k == "r":   # metered on-ramps: plain (odd) / simplified (even)
+                o = sm.MeteredOnRamp(2000.0, name=nm) if num_ % 2 else sm.SimplifiedMeteredOnRamp(2000.0, name=nm)
             elif k == "d":
-                o = sm.Destination(name=nm) if i != "d2" else sm.CongestedDestination(name=nm)
+                o = sm.Destination(name=nm) if num_ % 2 else sm.CongestedDestination(name=nm)
             else:
                 raise ValueError(f"unknown id {i}")
             self.obj[i] = o
